@@ -4,8 +4,8 @@ open UtilModel UtilModel.Routine
 #print axioms UtilModel.Chain.chain_one_running
 #print axioms UtilModel.Routine.step_ok
 #print axioms UtilModel.Routine.good_run
-#print axioms UtilModel.Routine.C04_full_false
-#print axioms UtilModel.Routine.one_running_partial
-#print axioms UtilModel.Routine.chain_inv_partial
+#print axioms UtilModel.Routine.one_running
+#print axioms UtilModel.Routine.C04_full_holds
+#print axioms UtilModel.Routine.chain_inv
 #print axioms UtilModel.Routine.waitReturn_after_all
-#print axioms UtilModel.Routine.C04a_obs_partial
+#print axioms UtilModel.Routine.C04a_obs
